@@ -234,7 +234,7 @@ func grainReplay(wd *world, bs []behaviour, st *stats) {
 			}
 		}
 		s.FreeRun()
-		quiet := s.Join(10 * time.Second)
+		quiet := drain(s, sortedKeys(b.Kinds), 10*time.Second)
 		if !quiet {
 			st.NotQuiet++
 		}
@@ -367,7 +367,7 @@ func grainExplore(wd *world, runs int, seed int64, mix string, st *stats) {
 			}
 		}
 		s.FreeRun()
-		quiet := s.Join(10 * time.Second)
+		quiet := drain(s, names, 10*time.Second)
 		if !quiet {
 			st.NotQuiet++
 		}
